@@ -107,8 +107,12 @@ NOISY = {
     "netc":  [(0, 0), (1, 0, 0), (1, 0, 1), (1, 1, 1), (2, 0, 0), (2, 1, 1)],
     "netcy": [(0, 0), (1, 0, 0), (1, 0, 1), (1, 1, 1), (2, 0, 0), (2, 1, 1)],
 }
-NPAT = {"net2d": 256, "net3d": 64, "lev": 64, "netc": 64, "netcy": 64}
-TEMPLATES = ("net2d", "net3d", "lev", "netc", "netcy")
+NOISY["netw"] = [(0, 0), (1, 0), (2, 0), (2, 4), (0, 1), (1, 1)]
+NPAT = {"net2d": 256, "net3d": 64, "lev": 64, "netc": 64, "netcy": 64, "netw": 64}
+TEMPLATES = ("net2d", "net3d", "lev", "netc", "netcy", "netw")
+# zero turns that put the reading of one chosen target EPS0 above / below 0 (= 400) gon: turn = reading - eps
+EPS0 = [-0.0006, -0.0003, -0.0001, 0.0001, 0.0003, 0.0006]
+EPS0_OF = {"netw": list(range(6)), "net2d": [2, 3]}
 
 
 def _sym(n, entries):
@@ -154,6 +158,16 @@ def base_net(tmpl, bits):
             _cl("height-differences", [H("H1", "N1"), H("N1", "N2"), H("N2", "H2"), H("H2", "N3")]),
             _cl("height-differences", [H("N3", "H1"), H("N1", "N3"), H("N2", "N3")],
                 covm=_band_cov(["dh", "dh", "dh"], 0.3)),
+        ]
+    elif tmpl == "netw":
+        # wrap-around template: bearings A->B = +2.5 cc and C->Q = 400 gon - 2.5 cc (x north, y east), so that with
+        # the +-5 cc errors and the turn0 transitions reading, set orientation and bearing each fall on either side of 0/400
+        pts = [Pt("A", 0.0, 0.0, xy="fix"), Pt("B", 200.0, 0.0008, xy="fix"), Pt("C", 0.0, 200.0, xy="fix"),
+               Pt("P", 100.0, 100.0, xy="adj"), Pt("Q", 200.0, 199.9992, xy="adj")]
+        cl = [
+            _cl("obs", [D("B"), D("P"), D("Q"), D("C"), Obs("distance", "A", "P"), Obs("distance", "A", "Q")], frm="A"),
+            _cl("obs", [D("Q"), D("P"), D("A"), D("B"), Obs("distance", "C", "Q")], frm="C"),
+            _cl("obs", [D("A"), D("B"), D("Q"), D("C"), Obs("distance", "P", "Q"), Obs("distance", "P", "B")], frm="P"),
         ]
     elif tmpl in ("netc", "netcy"):
         # observed coordinates and coordinate differences with full covariance matrices (mm^2).
@@ -297,6 +311,15 @@ def apply(net, E, tr):
         # new reading = old - t: the zero moved by +t in the sense of the readings
         st = _base_id(E, c.frm)
         E.dzero[st] = E.dzero.get(st, 0.0) + E.sense * t
+    elif k == "turn0":                              # turn the zero so that the reading of target k becomes eps (mod 400)
+        c = net.clusters[_find_cluster(net, tr[1])]
+        ok = [o for o in c.obs if o.uid == (tr[1], tr[2])][0]
+        assert ok.kind == "direction"
+        t = qang(ok.val - EPS0[tr[3]])
+        for o in c.obs:
+            if o.kind == "direction": o.val = qang(o.val - t)
+        st = _base_id(E, c.frm)
+        E.dzero[st] = E.dzero.get(st, 0.0) + E.sense * t
     elif k == "pp":                                 # permutation of the point records
         net.points = [net.points[i] for i in tr[1]]
     elif k == "pc":                                 # permutation of the clusters
@@ -430,7 +453,7 @@ def build(tmpl, bits, word):
 
 
 BASE_IDS = {"net2d": ["A", "B", "C", "P", "Q"], "net3d": ["A", "B", "C", "P", "Q"], "netc": ["A", "B", "C", "P", "Q"],
-            "netcy": ["A", "B", "C", "P", "Q"], "lev": ["H1", "H2", "N1", "N2", "N3"]}
+            "netcy": ["A", "B", "C", "P", "Q"], "netw": ["A", "B", "C", "P", "Q"], "lev": ["H1", "H2", "N1", "N2", "N3"]}
 
 
 def _u(*bs):
@@ -513,6 +536,8 @@ def single_words(tmpl, groups=None):
     W["tr"] = [(("tr", i),) for i in range(len(TRANSL))]
     W["turn"] = [(("turn", c.uid, k),) for c in net.clusters if any(o.kind == "direction" for o in c.obs)
                  for k in range(len(TURNS))]
+    W["turn0"] = [(("turn0", c.uid, o.uid[1], e),) for c in net.clusters for o in c.obs if o.kind == "direction"
+                  for e in EPS0_OF.get(tmpl, [])]
     W["pp"] = [(("pp", p),) for p in perms_of(len(net.points))]
     W["pc"] = [(("pc", p),) for p in perms_of(len(net.clusters))]
     W["po"] = [(("po", c.uid, p),) for c in net.clusters for p in perms_of(len(c.obs))]
@@ -531,6 +556,8 @@ def single_words(tmpl, groups=None):
         W["ax"] = [(("ax", a, s),) for a in AXES for s in SENSES if (a, s) != ("ne", "left-handed")]
     if tmpl == "netcy":                 # only there to expose the frame handling of x-y covariances
         W = {k: W[k] for k in ("tr", "ax")}
+    if tmpl == "netw":                  # only there to cover the wrap-arounds of reading / orientation / bearing
+        W = {k: W[k] for k in ("tr", "turn", "turn0", "ax")}
     W = {k: v for k, v in W.items() if v}
     if groups is not None:
         W = {k: v for k, v in W.items() if k in groups}
@@ -565,6 +592,11 @@ def reduced_menu(tmpl):
 
 def pair_words(tmpl):
     if tmpl == "netcy": return []
+    if tmpl == "netw":      # frame changes x the turns that bring the two near-axis readings to +-1, +-3 cc, both orders
+        R = [("tr", 1), ("ax", "en", "right-handed"), ("ax", "sw", "left-handed"), ("ax", "en", "left-handed"),
+             ("ax", "ne", "right-handed"), ("ax", "ws", "right-handed"), ("ax", "wn", "right-handed")]
+        R += [("turn0", cu, 0, e) for cu in (0, 1) for e in (1, 2, 3, 4)]
+        return [(a, b) for a in R for b in R if a != b]
     R = reduced_menu(tmpl)
     return [(a, b) for a in R for b in R if a != b]
 
@@ -576,6 +608,7 @@ def kind_of(word):
         k = tr[0]
         if k == "tr": out.append("tr(%d,%d)" % TRANSL[tr[1]][:2])
         elif k == "turn": out.append("turn(%s)" % gnet.fnum(TURNS[tr[2]], 4))
+        elif k == "turn0": out.append("turn0(%+dcc)" % round(EPS0[tr[3]] * 1e4))
         elif k == "id": out.append("id(%s)" % tr[1])
         elif k == "deg": out.append("deg(alt)" if tr[1] == "alt" else "deg")
         elif k == "ax": out.append("ax(%s,%s)" % (tr[1], "lh" if tr[2].startswith("l") else "rh"))
@@ -831,6 +864,19 @@ def compare(Rb, Rt, E, tmpl):
             if fld in b and fld in t and abs(t[fld] - s * b[fld]) > TOL["print3"] * (1 + 1e-3 * abs(b[fld])):
                 fail("obs-" + fld + "-" + corr, "obs %s: base %r expected %r got %r" % (uid, b[fld], s * b[fld], t[fld]))
         if deg: feat.add("sexagesimal-input")
+        if kind == "direction" and cdist(t["obs"], 0.0, 400.0) < 0.001:
+            # reading, approximate orientation and bearing in gama's working frame, each within 10 cc of 0/400: which side
+            try:
+                ys = h * sg
+                pf = dict(Rt.fixed); pf.update(Rt.approx)
+                a_, b_ = pf[t["from"]], pf[t["to"]]
+                s_ = math.atan2(ys * (b_.get("y", b_.get("Y")) - a_.get("y", a_.get("Y"))), b_.get("x", b_.get("X")) - a_.get("x", a_.get("X"))) * RAD2GON
+                o_ = ys * ot[t["from"]][0]
+                side = lambda v: None if cdist(v, 0.0, 400.0) >= 0.001 else ("+" if math.fmod(v + 800.0, 400.0) < 200.0 else "-")
+                tri = (side(t["obs"]), side(o_), side(s_))
+                if None not in tri: feat.add("wrap(reading%s,orientation%s,bearing%s)" % tri)
+            except (KeyError, TypeError):
+                pass
     if h != sg and E.xy_corr and any(not (c.startswith("obs-") and c.endswith("-corr")) and c != "cov-y-sign" for c, _ in bad):
         # observed coordinates / coordinate differences whose covariance matrix couples y with x or z, in a
         # system that gama mirrors internally: everything downstream differs; one structural clause
